@@ -193,10 +193,10 @@ func gentx(args []string) {
 		}
 		sc.Batches = append(sc.Batches, b)
 	}
-	// batch kv: 2..3 puts (one key overwritten when 3)
+	// batch kv: 3..4 puts on two keys (so at least one key is updated twice in the block)
 	{
 		b := Batch{Kind: "kv", NonceInc: map[string]uint64{}, KV: map[string]string{}}
-		nkv := int(2 + (r/3)%2)
+		nkv := int(3 + (r/3)%2)
 		for i := 0; i < nkv; i++ {
 			from := names[(i+1)%2]
 			key := fmt.Sprintf("k%d-%d", *seed, i%2)
